@@ -94,6 +94,23 @@ def bsInputs : List BSIn → List Nat
   | [] => []
   | x :: xs => (if x.ti then [x.i] else []) ++ bsInputs xs
 
+/-! Schedule predicates used as hypotheses of the BusSynchronizer theorems -/
+
+/-- The retry timer never expires along the schedule (`_timeout.done` is low before every instant). -/
+def NoTimeout (w t : Nat) (s : BSState) : List BSIn → Prop
+  | [] => True
+  | x :: xs => tmoDone s = false ∧ NoTimeout w t (bsStep w t s x) xs
+
+/-- Drift bound: never more than `R` consecutive instants that have an i-clock edge but no o-clock edge
+    (`q` = length of the current run of such instants).  The i clock may be up to `R+1` times faster than the
+    o clock; nothing is assumed in the other direction. -/
+def IBurst (R : Nat) : Nat → List BSIn → Prop
+  | _, [] => True
+  | q, x :: xs =>
+    if x.tO then IBurst R 0 xs
+    else if x.ti then q < R ∧ IBurst R (q + 1) xs
+    else IBurst R q xs
+
 /-! ### BusSynchronizer, width 1: `MultiReg(i, o, odomain)` only -/
 
 structure BS1State where
@@ -130,5 +147,35 @@ def psStep (s : PSState) (x : PSIn) : PSState :=
     r1  := if x.tO then (if x.ti && x.m then togN else s.tog) else s.r1
     r2  := if x.tO then s.r1 else s.r2
     tor := if x.tO then s.r2 else s.tor }
+
+def psRun (s : PSState) : List PSIn → PSState
+  | [] => s
+  | x :: xs => psRun (psStep s x) xs
+
+/-- Input pulses: instants with an i-clock edge while `i` is high. -/
+def psSent : List PSIn → Nat
+  | [] => 0
+  | x :: xs => (if x.ti && x.i then 1 else 0) + psSent xs
+
+/-- Output pulses: o-clock edges at which `o` is high. -/
+def psSeen (s : PSState) : List PSIn → Nat
+  | [] => 0
+  | x :: xs => (if x.tO && psOut s then 1 else 0) + psSeen (psStep s x) xs
+
+/-- Toggles travelling through the synchroniser chain. -/
+def psFlight (s : PSState) : Nat :=
+  (if s.tog != s.r1 then 1 else 0) + (if s.r1 != s.r2 then 1 else 0) + (if s.r2 != s.tor then 1 else 0)
+
+/-- Pending flag of a schedule: the last input pulse has not yet been followed by an o-clock edge that
+    caught it. -/
+def pendNext (pend : Bool) (x : PSIn) : Bool :=
+  if x.ti && x.i then !(x.tO && x.m) else (if x.tO then false else pend)
+
+/-- Input pulses are spaced: a new pulse comes only after the previous one has been caught by the first
+    synchroniser flop (at least one o-clock edge strictly after it, or a coincident edge that resolved to the new
+    value).  Pulses separated by three or more o-clock edges satisfy this. -/
+def PSpaced : Bool → List PSIn → Prop
+  | _, [] => True
+  | pend, x :: xs => ((x.ti && x.i) = true → pend = false) ∧ PSpaced (pendNext pend x) xs
 
 end Litex.Cdc
